@@ -79,10 +79,10 @@ func nonNilS(k []string) []string {
 	return k
 }
 
-func sc(a string) Val     { return Val{T: "s", A: a} }
-func nul() Val            { return Val{T: "z"} }
-func rf(n int) Val        { return Val{T: "r", N: n} }
-func ar(e ...Val) Val     { return Val{T: "a", E: e} }
+func sc(a string) Val            { return Val{T: "s", A: a} }
+func nul() Val                   { return Val{T: "z"} }
+func rf(n int) Val               { return Val{T: "r", N: n} }
+func ar(e ...Val) Val            { return Val{T: "a", E: e} }
 func di(k []string, e []Val) Val { return Val{T: "d", K: k, E: e} }
 
 func (v Val) String() string {
